@@ -528,6 +528,12 @@ func (x *extractor) extract(term string, t types.Type, depth int) *MVal {
 				dynT = x.c.tt.tidTypes[k]
 			}
 		}
+		if it, ok := t.Underlying().(*types.Interface); dynT == nil && ok && it.NumMethods() == 0 {
+			// an empty-interface value whose dynamic type is none of the types the run knows: any other type
+			// stands for it faithfully; the replay uses a type declared nowhere in the code under test
+			mv.Dyn = &MVal{Kind: "raw", Str: "struct{ VerifSomeOtherDynamicType int }{}"}
+			return mv
+		}
 		if dynT == nil {
 			mv.Bad = fmt.Sprintf("dynamic type id %d is not a known Go type", tid.Int64())
 			if !x.lenient {
